@@ -131,7 +131,11 @@ REF_TOKEN = re.compile(r'\s+|#[^\n]*|([A-Za-z][A-Za-z0-9]*)|([+-]?[0-9]+)(?![0-9
 def ref_tree(text):
     """nested [(key, value)] of a text in plain GML (keys, integers, one-line strings without references, lists);
     None if the text is not of that form"""
-    if not all(ord(c) < 128 for c in text) or "\r" in text:
+    if not all(ord(c) < 128 for c in text):
+        return None
+    if any(ln.count('"') % 2 for ln in text.split("\n")):
+        # networkx joins lines from one with a single quote to the next line ENDING in a quote (even when the quote
+        # sits in a comment): modelled, but outside what this reference calls plain GML
         return None
     pos = 0
     toks = []
@@ -412,9 +416,10 @@ KEYS = ["a", "b", "x1", "label", "weight", "graphics", "self", "node_for_adding"
 class Gen:
     """random GML documents; `risky` is set when a feature outside the modelled subset is emitted"""
 
-    def __init__(self, rng):
+    def __init__(self, rng, clean=False):
         self.rng = rng
         self.risky = False
+        self.clean = clean
 
     def ws(self):
         r = self.rng
@@ -504,8 +509,74 @@ class Gen:
         r.shuffle(parts)
         return "edge" + self.ws() + "[" + self.ws() + "".join(p + self.ws() for p in parts) + "]"
 
+    def clean_items(self, ty):
+        """a well-formed graph body: distinct ids (integers in any order, strings, or a mix), distinct edges
+        between them, every node with a side for `bipartite` — rendered with random blanks, labels, harmless keys"""
+        r = self.rng
+        n = r.choice([0, 1, 2, 3, 4, 5, 6, 7, 11, 12])
+        style = r.choice(["0..", "1..", "shuffled", "sparse", "neg", "neg", "str", "mixed", "refs"])
+        if style == "str":
+            ids = ['"{}"'.format(x) for x in r.sample(["a", "b", "B", "ab", "", "10", "9", "z", "a b", "01", "1", "x]", "-"], min(n, 13))]
+        elif style == "refs":
+            ids = ['"&#{};"'.format(c) for c in r.sample(range(48, 123), n)]
+        elif style == "mixed":
+            ids = [str(x) for x in r.sample(range(-3, 30), n)]
+            for i in r.sample(range(len(ids)), len(ids) // 2):
+                ids[i] = '"s{}"'.format(i)
+        else:
+            ids = [str(x) for x in {"0..": list(range(n)), "1..": list(range(1, n + 1)), "shuffled": r.sample(range(1, n + 1), n),
+                                    "sparse": r.sample(range(0, 60), n), "neg": r.sample(range(-9, 25), n)}[style]]
+        n = len(ids)
+        directed = ty in ("digraph", "dag") or r.random() < .1
+        head = []
+        if directed:
+            head.append("directed" + self.ws() + r.choice(["1", "1", "1", "2", '"y"', "[ a 1 ]"]))
+        elif r.random() < .2:
+            head.append("directed" + self.ws() + r.choice(["0", '""', "[ ]", "00"]))
+        if r.random() < .3:
+            head.append("name" + self.ws() + r.choice(STRS))
+        if r.random() < .1:
+            head.append("multigraph" + self.ws() + "0")
+        sides = [r.choice([0, 1]) for _ in ids]
+        nodes = []
+        for x, sd in zip(ids, sides):
+            parts = ["id" + self.ws() + x]
+            if r.random() < .5:
+                parts.append("label" + self.ws() + r.choice(STRS + ["5"]))
+            if ty == "bipartite" or r.random() < .1:
+                parts.append("bipartite" + self.ws() + r.choice([str(sd), '"{}"'.format(sd), '"&#{};"'.format(48 + sd)]))
+            if r.random() < .1:
+                parts.append(r.choice(["graphics", "a", "weight", "Creator"]) + self.ws() + self.value(2, ("i", "s", "l")))
+            r.shuffle(parts)
+            nodes.append("node" + self.ws() + "[" + self.ws() + "".join(q + self.ws() for q in parts) + "]")
+        pairs = [(a, b) for a in range(n) for b in range(n) if a != b or (directed and ty == "digraph")]
+        if ty == "bipartite":
+            pairs = [(a, b) for a, b in pairs if sides[a] != sides[b]]
+        if ty == "dag" and style not in ("str", "mixed", "refs"):
+            pairs = [(a, b) for a, b in pairs if int(ids[a]) < int(ids[b])]
+        r.shuffle(pairs)
+        chosen, seen = [], set()
+        for a, b in pairs[:r.randint(0, 2 * n)]:
+            key = (a, b) if directed else (min(a, b), max(a, b))
+            if key not in seen:
+                seen.add(key)
+                chosen.append((a, b))
+        edges = []
+        for a, b in chosen:
+            parts = ["source" + self.ws() + ids[a], "target" + self.ws() + ids[b]]
+            if r.random() < .1:
+                parts.append(r.choice(["weight", "label", "key", "a"]) + self.ws() + self.value(2, ("i", "s", "l")))
+            r.shuffle(parts)
+            edges.append("edge" + self.ws() + "[" + self.ws() + "".join(q + self.ws() for q in parts) + "]")
+        body = head + nodes + edges
+        if r.random() < .2:
+            r.shuffle(body)
+        return "".join(self.ws() + b for b in body) + self.ws()
+
     def graph_items(self, ty):
         r = self.rng
+        if self.clean:
+            return self.clean_items(ty)
         n = r.choice([0, 1, 2, 3, 4, 5, 6, 11])
         style = r.choice(["0..", "1..", "shuffled", "sparse", "neg"])
         pool = {"0..": list(range(n)), "1..": list(range(1, n + 1)), "shuffled": r.sample(range(1, n + 1), n),
@@ -561,6 +632,8 @@ class Gen:
         pre = self.ws() if r.random() < .3 else ""
         if r.random() < .1:
             pre += r.choice(["Creator \"me\"", "Version 1", "a [ b 1 ]", "x 5"]) + self.ws()
+        if self.clean:
+            return pre + "graph" + self.ws() + "[" + self.graph_items(ty) + "]" + r.choice(["", "\n", "\n\n", " "])
         if x < .9:
             doc = pre + "graph" + self.ws() + "[" + self.graph_items(ty) + "]"
         elif x < .93:
@@ -756,7 +829,7 @@ def cases(ctx):
     # ---- reader: structured random documents
     for _ in range(700 if quick else 9000):
         ty = rng.choice(list(TY))
-        gen = Gen(rng)
+        gen = Gen(rng, clean=rng.random() < .55)
         text = gen.document(ty)
         u = 1 if rng.random() < .15 else 0
         must = 0 if gen.risky else 1
